@@ -11,8 +11,14 @@
 (*       concatenation of the per-file outputs), Indices                   *)
 (*   C18 RejectBeforeIO                                                    *)
 (*   C20 ExitStatus, Streams                                               *)
+(* and, since round 8, x --skip S --take T in front of the three shapes    *)
+(* (C08 at the run level: WritePrefix / MergeOut speak of the limited      *)
+(* rows; C14: BreakEndsReading - nothing is pulled beyond the look-ahead   *)
+(* byte of the value that completes the T rows, no later operand is        *)
+(* opened) x a directory operand with a sub-directory, in every order the  *)
+(* file system may list the entries (Run!Lin).                             *)
 (***************************************************************************)
-EXTENDS Run, TLC
+EXTENDS Run, TLC, FiniteSets
 
 MCDoubleOf(x) == x
 F1 == <<49, 32, 34, 97, 34>>                                   \* 1 "a"
@@ -28,7 +34,20 @@ Layouts == {[files |-> <<>>, stdin |-> F1], [files |-> <<>>, stdin |-> FN], [fil
 Policies == {"ignore", "panic", "stderr", "stdout"}
 Modes == {"plain", "ctx", "merge"}
 NoRF == [src |-> 0, at |-> 0]
-Mk(v, p, m, o, l, rf, wf) == [valid |-> v, policy |-> p, mode |-> m, onlyObj |-> o, files |-> l.files, stdin |-> l.stdin, rfault |-> rf, wfault |-> wf, srcNo |-> 0]
+MkL(v, p, m, o, l, rf, wf, sk, tk) == [valid |-> v, policy |-> p, mode |-> m, onlyObj |-> o, files |-> l.files, stdin |-> l.stdin, rfault |-> rf, wfault |-> wf, srcNo |-> 0,
+                                       skip |-> sk, take |-> tk]
+Mk(v, p, m, o, l, rf, wf) == MkL(v, p, m, o, l, rf, wf, 0, -1)
+\* operands: the directory {f1, sub/{f2}, f4} and then the file f6 - 3! orders of the entries
+Tree1 == <<[dir |-> <<[leaf |-> 1], [dir |-> <<[leaf |-> 2]>>], [leaf |-> 3]>>], [leaf |-> 4]>>
+Leaf1 == <<F1, F2, F4, F6>>
+DirLayouts == {[files |-> [i \in 1..Len(f) |-> Leaf1[f[i]]], stdin |-> <<>>] : f \in Lin(Tree1)}
+ASSUME LinIsDepthFirst ==
+  /\ Cardinality(Lin(Tree1)) = 6
+  /\ \A f \in Lin(Tree1) : Len(f) = 4 /\ {f[i] : i \in 1..4} = 1..4 /\ f[4] = 4         \* every file once; the second operand after the whole first
+  /\ LeavesOf(Tree1, 1) \in Lin(Tree1)
+  \* a directory's files are contiguous: {a, sub/{b, c}} never gives b a c
+  /\ Lin(<<[dir |-> <<[leaf |-> 1], [dir |-> <<[leaf |-> 2], [leaf |-> 3]>>]>>]>>) = {<<1, 2, 3>>, <<1, 3, 2>>, <<2, 3, 1>>, <<3, 2, 1>>}
+Limits == {<<0, 0>>, <<0, 1>>, <<0, 2>>, <<1, 1>>, <<1, 2>>, <<0, 3>>, <<2, -1>>}
 SrcsOf(l) == IF l.files = <<>> THEN <<l.stdin>> ELSE l.files
 \* one fault at a time: none, a read fault at every offset (end of input included) of every input, a write fault at offsets 0..24
 Init == \/ \E p \in Policies, l \in Layouts : Init0(Mk(FALSE, p, "plain", FALSE, l, NoRF, -1))
@@ -36,12 +55,26 @@ Init == \/ \E p \in Policies, l \in Layouts : Init0(Mk(FALSE, p, "plain", FALSE,
              \/ Init0(Mk(TRUE, p, m, o, l, NoRF, -1))
              \/ \E s \in 1..Len(SrcsOf(l)) : \E a \in 0..Len(SrcsOf(l)[s]) : Init0(Mk(TRUE, p, m, o, l, [src |-> s, at |-> a], -1))
              \/ \E wf \in 0..24 : Init0(Mk(TRUE, p, m, o, l, NoRF, wf))
+        \* --skip / --take: fault free under every policy; every write fault and every read fault under ignore
+        \/ \E p \in Policies, m \in Modes, o \in BOOLEAN, l \in Layouts, st \in Limits : Init0(MkL(TRUE, p, m, o, l, NoRF, -1, st[1], st[2]))
+        \/ \E m \in Modes, l \in Layouts, st \in Limits :
+             \/ \E wf \in 0..24 : Init0(MkL(TRUE, "ignore", m, FALSE, l, NoRF, wf, st[1], st[2]))
+             \/ \E s \in 1..Len(SrcsOf(l)) : \E a \in 0..Len(SrcsOf(l)[s]) : Init0(MkL(TRUE, "ignore", m, FALSE, l, [src |-> s, at |-> a], -1, st[1], st[2]))
+        \* a directory operand, every listing order: fault free, with and without limits
+        \/ \E p \in {"ignore", "panic"}, m \in Modes, o \in BOOLEAN, l \in DirLayouts, st \in Limits \cup {<<0, -1>>} : Init0(MkL(TRUE, p, m, o, l, NoRF, -1, st[1], st[2]))
 Spec == Init /\ [][Next]_vars
 
 \* ---- C16
 FaultIsError == Exited /\ faultHit => result = "err"
 ReadFaultFinal == faultHit => /\ phase = "exit" /\ src = cfg.rfault.src /\ pos = cfg.rfault.at /\ Len(opened) = src
-Full == ConcatPlain(Sources(cfg), cfg.onlyObj, 1)
+\* the rows of the unlimited run, then the slice --skip / --take keep (C08)
+RECURSIVE AllVals(_, _, _)
+AllVals(srcs, onlyObj, i) == IF i > Len(srcs) THEN <<>>
+                             ELSE LET vs == ValuesOf(LexRun(srcs[i]).out) IN (IF onlyObj THEN SelectSeq(vs, IsContainer) ELSE vs) \o AllVals(srcs, onlyObj, i + 1)
+Limited(vs) == LET hi == IF cfg.take = -1 \/ cfg.skip + cfg.take > Len(vs) THEN Len(vs) ELSE cfg.skip + cfg.take IN SubSeq(vs, cfg.skip + 1, hi)
+Full == RowsOf(Limited(AllVals(Sources(cfg), cfg.onlyObj, 1)), 1)
+Unlimited == cfg.skip = 0 /\ cfg.take = -1
+FilesSeparate == Unlimited => Full = ConcatPlain(Sources(cfg), cfg.onlyObj, 1)
 IsPrefixB(p, s) == Len(p) <= Len(s) /\ SubSeq(s, 1, Len(p)) = p
 Quiet == cfg.policy \in {"ignore", "stderr"}
 WritePrefix == Exited /\ cfg.valid /\ cfg.mode = "plain" /\ Quiet =>
@@ -50,7 +83,25 @@ WritePrefix == Exited /\ cfg.valid /\ cfg.mode = "plain" /\ Quiet =>
                  ELSE result = "ok" /\ out = Full
 StreamingPrefix == cfg.mode = "plain" /\ Quiet => IsPrefixB(out, Full)
 \* ---- C17: the context rows of the incremental machine equal those computed file by file from the lexer's events
-Indices == Exited /\ cfg.valid /\ cfg.mode = "ctx" /\ cfg.policy = "ignore" /\ cfg.rfault = NoRF /\ cfg.wfault = -1 =>
+MergeOut == Exited /\ cfg.valid /\ cfg.mode = "merge" /\ cfg.policy = "ignore" /\ cfg.rfault = NoRF /\ cfg.wfault = -1 =>
+              result = "ok" /\ out = RowBytes(Arr(Limited(AllVals(Sources(cfg), cfg.onlyObj, 1))))
+\* ---- C14 at the run level: where reading stops.  The value that completes the T rows (with T = 0: the first one behind the skipped ones) is the
+\* need-th kept value; the byte after it is the last one pulled, and no later operand is opened.
+RECURSIVE NthAt(_, _, _, _), StopAt(_, _, _, _)
+NthAt(evs, k, need, onlyObj) ==
+  IF k > Len(evs) THEN [found |-> FALSE, need |-> need]
+  ELSE IF evs[k].e = "val" /\ (~onlyObj \/ IsContainer(evs[k].v))
+       THEN (IF need = 1 THEN [found |-> TRUE, n |-> evs[k].at.n] ELSE NthAt(evs, k + 1, need - 1, onlyObj))
+       ELSE NthAt(evs, k + 1, need, onlyObj)
+StopAt(srcs, s, need, onlyObj) ==
+  IF s > Len(srcs) THEN [src |-> Len(srcs) + 1, n |-> 0]
+  ELSE LET r == NthAt(LexRun(srcs[s]).out, 1, need, onlyObj) IN IF r.found THEN [src |-> s, n |-> r.n] ELSE StopAt(srcs, s + 1, r.need, onlyObj)
+BreakEndsReading == cfg.valid /\ cfg.take # -1 =>
+  LET stop == StopAt(Sources(cfg), 1, cfg.skip + (IF cfg.take = 0 THEN 1 ELSE cfg.take), cfg.onlyObj) IN
+  /\ Len(opened) <= stop.src /\ src <= stop.src
+  /\ (src = stop.src => pos <= stop.n)
+\* ... and the limited context rows are the first rows of the unlimited ones (&index, &index-in-file are those of the unlimited run)
+Indices == Exited /\ cfg.valid /\ cfg.mode = "ctx" /\ Unlimited /\ cfg.policy = "ignore" /\ cfg.rfault = NoRF /\ cfg.wfault = -1 =>
              out = CtxAll(Sources(cfg), 1, 0, cfg.onlyObj)
 \* ---- C18
 RejectBeforeIO == Exited /\ ~cfg.valid => result = "err" /\ opened = <<>> /\ out = <<>> /\ pulled = 0 /\ errOut = 0
